@@ -38,9 +38,12 @@ CHECKS = {
  "C06": ("other", "truth-table extraction from path-sensitive return summaries + guarded-store (must-pass-through) analysis + nil/reflect panic-site census (go/ssa)", "DESIGN.md §3 R-TT/R-STOREGUARD/R-NIL, §4 C06",
    "Decides exactly the finite parts of C06: Condition.Valid's return paths are compared row by row (48 feasible rows) with the table the property states; the expression filter and the parenthesis/padding polarity of condition.string likewise; keyword/operator/expression are proved to be written only by their setters and only after the acceptance test, so a rejected argument leaves the previous value; Cond records Valid()'s verdict; String() renders only when Valid()==nil; no setter/constructor can panic on nil, empty or wrongly typed arguments (census of nil/reflect panic sites in their reachable code).",
    "Necessary conditions only (level other). Not covered: the exact rendered text (string-valued functional correctness), user Operator/Stringer code. Trusted: go/ssa lowering, the fact engine and its summaries (checker/engine.go), the rule tables."),
+ "C12": ("other", "census of type assertions to the native types (who may recognise a Stack/Condition without the converter) + must-consult table over the consumers + path facts 'both converters declined this value' before generic rendering + justification of every declining return path of the converters (go/ssa)", "DESIGN.md §3 R-CONV, §4 C12",
+   "No code outside the converters tells a Stack/Condition by a plain type assertion (3 audited positive fast paths excepted); every consumer named by the property consults the converter(s); generic rendering happens only after both converters declined the very value; equality compares the converted instances; the converters decline only nil, zero instances and types not convertible after following pointers.",
+   "Necessary conditions (level other): equality of results with the native tree is not decided."),
  "C13": ("other", "truth-table extraction (finite predicate abstraction on the CFG) + per-iteration gate analysis of the append loops + write-set analysis (go/ssa)", "DESIGN.md §3 R-TT/R-APPEND, §4 C13",
    "The acceptance decision at push time, both CanNest getters and the Condition-side filter are loop-free Boolean functions: their return paths are enumerated and compared with the table the property states (decided exactly). The append in the per-value loop is proved to be gated by the verdict on that very value and by a fullness test made after the previous write; switching the option is proved to write the option word only.",
-   "Level other: IsNesting's full-scan clause is not claimed; custom push policies bypass the option by design. Trusted: go/ssa lowering, fact engine, rule tables."),
+   "Level other: custom push policies bypass the option by design. IsNesting's scan is decided by R-SCAN (order, per-slot verdict, continue-only-while-false). Trusted: go/ssa lowering, fact engine, rule tables."),
  "C14": ("other", "dispatch/path enumeration over closure slots + setter who-writes-what + loop gate analysis (go/ssa)", "DESIGN.md §3 R-DISPATCH/R-STOREGUARD, §4 C14",
    "For each closure slot the dispatcher's return paths are enumerated: closure invoked iff installed, built-in code not run on that path, the closure's own result returned, built-in code run when the slot is nil; each setter stores its argument into exactly its slot; the policy-gated append consults the policy only while room remains, once per iteration, appends only the approved value, and a rejection records the policy's error and ends the batch; BASIC stacks refuse a presentation policy with an error and rendering is gated by canString (table checked).",
    "Structural necessary conditions (level other): 'once per offered value' is one call site in the per-value loop, not a runtime count; closure bodies are opaque."),
